@@ -8,6 +8,10 @@ export CARGO_NET_OFFLINE=true CARGO_BUILD_JOBS=8
 git -C /repo worktree remove --force $WT 2>/dev/null
 git -C /repo worktree add -q --detach $WT HEAD || exit 2
 declare -A DEMO=(
+ [C19g_physical_path_resolves_rest_before_link_target]="-p yash-env -p yash-builtin -E binary(~c19g)"
+ [C18g_read_overreads_after_invalid_utf8]="-p yash-builtin --test c18g_read_invalid_utf8"
+ [C15g_finished_task_sweep_drops_task_being_polled]="-p yash-executor --test c15g_nested_step_wake"
+ [C17g_forked_child_starts_without_aliases]="-p yash-semantics --test c17g_alias_in_command_subst"
  [C14g_nonblocking_guard_restores_seen_mode]="-p yash-env --test c14g_shared_pipe_nonblocking"
  [C13g_wait_returns_at_unknown_operand]="-p yash-builtin --test c13g_wait_unknown_then_known"
  [C12g_bg_sets_bang_before_validation]="-p yash-builtin --test c12g_bg_last_async_pid"
